@@ -30,7 +30,7 @@ def base_frames(rng, n):
 
 
 def generate(rng, tier):
-    n = 6 if tier == "quick" else 36
+    n = 12 if tier == "quick" else 200
     for b in base_frames(rng, n):
         raw, _ = C15.sender_frame(b)
         yield dict(b, kind="tamper", tamper=["none"])
